@@ -20,6 +20,9 @@ EXPLANATION = (
 EXPLANATION += (  # round-3 supplement
     " E5's unify_intvars part is decided by evaluating the function's decision code for all four flag combinations (vf/symex.py). E6 success of unify_fields is gated by a relation between both field counts. E7 the covered-variants collection of match_expr is kept duplicate-free. E8 the Never row of unification is directional (known finding)."
 )
+EXPLANATION += (
+    ' E9 record literals: a field name enters the set of names seen so far only behind a negative membership test on that same set (so a repeated field is reported whatever the expected fields are).'
+)
 ASSUMPTIONS = [
     "unify / unify_inner themselves (the unification algorithm) are trusted beyond the occurs check decided under C06",
 ]
@@ -576,6 +579,49 @@ def rule_e7(F):
     return r
 
 
+def rule_e9(F):
+    """A record literal that names a field twice is an error.  record_fields keeps a set of the names seen so far; a name is added
+    to it only after the membership test on that same set said 'not seen yet' - whatever else the loop does with the name (the
+    lookup in the expected fields succeeds for BOTH occurrences when the expected fields were derived from the literal itself)."""
+    r = RuleResult("C07.E9", "record literals: a field name enters the set of seen names only behind a negative membership test on that set (duplicates are reported)", floor=1)
+    ps = [p for p in F.paths() if p.endswith("TypeChecker>::record_fields") and "typechecker::expr" in p]
+    if not ps:
+        r.missing("TypeChecker::record_fields")
+        return r
+    b = F.body(ps[0])
+    defs = mir.Defs(b)
+    dom = mir.dominators(b)
+
+    def base(op):
+        if not mir.is_place_op(op):
+            return None
+        l = op[1][0]
+        for _ in range(8):
+            ds = defs.whole_defs(l)
+            if len(ds) == 1 and ds[0][2] == "assign" and ds[0][3]["rv"]["k"] in ("ref", "use"):
+                rv = ds[0][3]["rv"]
+                src = rv.get("p") or (rv["o"][1] if mir.is_place_op(rv.get("o")) else None)
+                if not src:
+                    break
+                l = src[0]
+            else:
+                break
+        return l
+    ins = [(bi, t, base(t["args"][0])) for bi, t in mir.calls(b) if "HashSet" in (mir.callee_def(t) or "") and hir.last(mir.callee_def(t)) == "insert" and t["args"]]
+    con = [(bi, t, base(t["args"][0])) for bi, t in mir.calls(b) if "HashSet" in (mir.callee_def(t) or "") and hir.last(mir.callee_def(t)) == "contains" and t["args"]]
+    if not ins:
+        r.missing("the set of field names seen so far (HashSet::insert) in record_fields")
+        return r
+    for ibi, it, iset in ins:
+        ok = any(cset == iset and cbi in dom[ibi] and mir.decided_by(b, defs, dom, cbi, ibi) for cbi, ct, cset in con)
+        r.inst("insert into the seen-names set line %s" % it.get("line"), {"line": it.get("line"), "behind_membership_test": ok})
+        if not ok:
+            r.bad(b.path, "name recorded as seen without the duplicate test", relfile(b.file), it.get("line"),
+                  "a field name is added to the set of seen names on a path that did not first test that set for the name: a second occurrence of the field is not reported as a duplicate "
+                  "(`{ a: 1, a: 2 }` type-checks when the expected fields come from the literal itself, and later passes panic on the duplicated field)")
+    return r
+
+
 def rule_e8(F):
     """`!` is the type of expressions that do not produce a value. Such an expression may stand where any type is expected, but a
     value may not stand where `!` is expected: the unification row for Never must accept (expected x, actual Never) only. unify is
@@ -611,4 +657,4 @@ def rule_e8(F):
 
 def rules(ctx):
     F = ctx["F"]
-    return [rule_e1(F), rule_e2(F), rule_e3(F), rule_e4(F), rule_e5(F), rule_e6(F), rule_e7(F), rule_e8(F)]
+    return [rule_e1(F), rule_e2(F), rule_e3(F), rule_e4(F), rule_e5(F), rule_e6(F), rule_e7(F), rule_e8(F), rule_e9(F)]
